@@ -77,6 +77,10 @@ struct Model
   std::map<int, std::vector<std::pair<uint64_t, int64_t>>> logger_masks; // slot -> [(seq, mask)]
   std::vector<std::string> notifier;
   int nsinks = 0;
+  std::map<int, int> thread_sim_id;        // plan thread -> simulated thread id (thread id seen by quill = 1000 + it)
+  std::map<int, std::vector<std::pair<uint64_t, std::string>>> logger_names; // slot -> [(seq, name)]
+  std::vector<bool> sink_override;         // sink has its own override pattern
+  std::string logger_name_at(int slot, uint64_t seq) const;
 
   static Model build(Plan const& p, History const& h);
   int64_t mask_of_logger_at(int slot, uint64_t seq) const;
